@@ -103,15 +103,10 @@ def run(ctx, chk):
                     csites.append(mir_name(p))
     chk.check(R4, len(csites) == 1 and csites[0].endswith("Parser::parse_inst"), "State::Complete:single-site",
               "State::Complete is constructed in %s" % csites, raw.where("parse_inst", "Parser"), sample=csites)
-    pf = ctx.rspirv.fn(PAR, "parse_inst", "Parser")
-    cs = sites(pf["body"], lambda n: n[0] == "path" and n[1].endswith("State::Complete"))
-    okc = len(cs) == 1 and len(cs[0][1]) == 1 and (
-        (cs[0][1][0].startswith("!(let Ok(") and cs[0][1][0].endswith(") = self.decoder.word())"))
-        or cs[0][1][0].startswith("self.decoder.word() matches Err("))
-    first = first_decoder_call(pf)
-    chk.check(R4, okc and first, "State::Complete:path-condition",
-              "Complete is produced under %s (expected only: the first self.decoder.word() of the instruction failed)" % [c[1] for c in cs],
-              raw.where("parse_inst", "Parser"), key="C14:complete-condition")
+    # Complete is produced only when the first word of an instruction could not be read: parse_inst evaluated on scripted decoders
+    from . import headerx as _hx2
+    cp = [(i_, pb_) for i_, pb_, _s in _hx2.parse_inst_problems(ctx) if pb_]
+    chk.check(R4, not cp, "State::Complete:only-at-end-of-stream", "parse_inst: %s" % cp[:2], raw.where("parse_inst", "Parser"), key="C14:complete-condition")
 
     R5 = chk.rule("R-PROTO-5", "load_bytes/load_words, evaluated with parse_* failing and succeeding: the parse error is returned unchanged and "
                   "loader.module() is handed out only after parse_* returned Ok; parse_bytes/parse_words build one Parser on the caller's "
